@@ -1,7 +1,7 @@
 (* C16 -- refutation witnesses for the code as it is at the pinned commit; outside the cone
    of Props.v.  If one of these stops compiling, the defect is gone. *)
 From Coq Require Import ZArith QArith String List Bool Lia ZifyBool.
-From PL.C16 Require Import PyNum GenArithTable ModelEval IsoArith ProofsArith.
+From PL.C16 Require Import PyNum GenArithTable ModelEval IsoArith ProofsArith GenModes ModelBuiltins ProofsBuiltins.
 Import ListNotations.
 Open Scope Z_scope.
 
@@ -19,7 +19,7 @@ Proof. exists (-7), 2. vm_compute. discriminate. Qed.
 (* a float operand of an integer-only operator escapes as a raw Python TypeError
    (compute_function only maps ValueError and ZeroDivisionError): X is 1.5 /\ 1 *)
 Theorem C16_type_error_escapes_refuted :
-  exists e, ground e = true /\ is_m e = ORaw PyTypeError.
+  exists e, ModelEval.ground e = true /\ is_m e = ORaw PyTypeError.
 Proof. exists (EApp2 "/\" (ENum (VFlt (3 # 2))) (ENum (VInt 1))). vm_compute. auto. Qed.
 
 (* ---- the defect class of X // Y is exactly the complement of intdiv_guard, and the result is
@@ -55,3 +55,17 @@ Qed.
 Theorem C16_intdiv_guard_exact :
   forall a b, intdiv_guard a b = false -> app2 "//" a b <> iso_intdiv a b /\ app2 "//" a b = IVal (Z.quot a b - 1).
 Proof. intros a b G. split; [exact (intdiv_differs_unguarded a b G) | exact (intdiv_floor_minus_one a b G)]. Qed.
+
+(* ---- term builtins ---- *)
+(* succ(X, 0) answers X = -1 (Prolog: no solution; negative arguments: type error) *)
+Theorem C16_succ_zero_refuted : exists x, In [TInt x; TInt 0] (sols_of (succ_m (TVar 0) (TInt 0))) /\ ~ succ_rel x 0.
+Proof. exists (-1). split; [vm_compute; auto | unfold succ_rel; lia]. Qed.
+(* length(L, N) with N smaller than the known prefix (or negative) raises a raw UnifyError *)
+Theorem C16_length_negative_refuted : length_m 0 (TVar 0) (TInt (-1)) = RaiseUnify.
+Proof. reflexivity. Qed.
+(* is_list([a|_]) succeeds; integer(Y) succeeds for Y = '-'(7) built at run time *)
+Theorem C16_type_tests_refuted :
+  type_test T_is_list (mklist [atom "a"] (TVar 0)) <> iso_type_test T_is_list (mklist [atom "a"] (TVar 0))
+  /\ type_test T_integer (TApp "'-'" [TInt 7]) <> iso_type_test T_integer (TApp "'-'" [TInt 7])
+  /\ type_test T_atomic (TStr "s") <> iso_type_test T_atomic (TStr "s").
+Proof. vm_compute. repeat split; discriminate. Qed.
